@@ -297,7 +297,9 @@ impl OtlpBuilder {
             // Process batches from each signal independently
             // This ensures one signal becoming unavailable doesn't
             // block the others
-            let _ = processors.into_future().await;
+            // Wait for all of them to finish so each signal gets a chance
+            // to send its last batch once the emitter is dropped
+            let _ = processors.collect::<Vec<()>>().await;
         };
 
         // Under simulation the worker runs on a simulated thread with a simulated executor
